@@ -102,7 +102,12 @@ def correspondence(ctx):
                  "longer (earlier draft) and shorter file and verifies with the result; a third of the chains use artifact names, strip "
                  "prefix, exclude pattern and match-products path with commas, spaces, '=', leading '-', double quote and non-ASCII "
                  "(decoy files named like the comma-separated pieces exist), and every link's materials/products are compared with the "
-                 "names the history demands. Quick: 12 featured chains (those that failed before "
+                 "names the history demands. Directory shapes: the working directory of run/record, the metadata directory (-d, relative, absolute, "
+                 "trailing slash), verify's working directory, link directory and layout file name are drawn from names with %, %s, %d, %2F, [1], "
+                 "*, ?, backslash, spaces, {x} and non-ASCII; in a quarter of the chains verify's working directory is entered through a "
+                 "symlink (PWD = symlink path) so that a relative ../links differs between the kernel's and a lexical reading; CLI and library "
+                 "run in two private trees of the same shape with the same arguments (a link-dir NAME with glob metacharacters is read as a "
+                 "pattern by the library itself: there only CLI = library is demanded). Quick: 12 featured chains (those that failed before "
                  "F6/F9/F18) + 36 random; thorough: + all 240 combinations of wrapper mode x method x recording mode x strip x metadata "
                  "dir x key kind and 360 random. evaluations = CLI invocations compared (exit status vs library in a child process vs "
                  "ground truth); string-level cases (Sprintf of the 5 constants, real filepath.Glob on a directory, short id) are counted "
